@@ -9,6 +9,12 @@ Emitted
   catalogDirParts       : List (List Char)   [".pytask", "data_catalogs"]
   catalogEntrySuffix    : List Char          ".pkl"
   catalogNodeSuffix     : List Char          "-node.pkl"
+
+These flat facts are what `Catalog.lean` consumes directly. They are read with the recognisers of `extract_catalogsrc.py` (the tie
+section, tolerant to renamed locals / helper variables / compiled pattern constants); the CODE around them (statements of
+`__attrs_post_init__`, `__getitem__`, `add`, `PickleNode.load/save`) is extracted there as data and proved equal to the model in
+`lean/PytaskProofs/Properties/CatalogTie.lean`. The helpers `_validator_facts`, `_path_facts`, `_pickle_node_facts` below are the
+former text-comparison recognisers; `section()` no longer calls them.
 """
 from __future__ import annotations
 
@@ -205,15 +211,44 @@ def _pickle_node_facts(E):
 
 
 def section() -> list[str]:
+    """The flat facts consumed by `Catalog.lean` itself. Since the tie module exists (extract_catalogsrc.py / CatalogGen.lean /
+    Properties/CatalogTie.lean) they are read with ITS tolerant recognisers (renamed locals, helper variables, compiled pattern
+    constant, `/` vs joinpath …); everything structural that this section used to pin by text comparison is now extracted as
+    data there and proved equal to the model, so it is not checked twice here. Fail-closed: facts that do not fit the flat
+    format (`[class]+` with one of the three re functions, literal directories then the name, digest + literal suffix) raise."""
     A = _api()
     E = A.ExtractError
-    mod = A._parse("data_catalog.py")
-    cls = next((n for n in mod.body if isinstance(n, ast.ClassDef) and n.name == "DataCatalog"), None)
-    if cls is None:
-        raise E("DataCatalog class not found")
-    ranges, fn, kind = _validator_facts(E, cls)
-    dir_parts, entry_suffix, node_suffix = _path_facts(E, cls)
-    _pickle_node_facts(E)
+    import extract_catalogsrc as S
+    try:        # only the three functions whose facts the flat format needs; the rest is the tie section's business
+        S.RAW.clear()
+        mod, cls = S._catalog_class()
+        S.validator_facts(mod, cls)
+        S.init_facts(cls)
+        S.add_facts(cls)
+    except Exception as e:  # noqa: BLE001
+        raise E(f"{e}") from None
+    R = dict(S.RAW)
+    kinds = {"match": 0, "fullmatch": 1, "search": 2}
+    fn = R.get("validator_fn")
+    if fn not in kinds:
+        raise E(f"name validator: unrecognised re function {fn!r}")
+    if R.get("validator_items") != [".plus"] or len(R.get("classes", [])) != 1:
+        raise E(f"name validator: pattern items {R.get('validator_items')} are not a single [class]+")
+    ranges = R["classes"][0][1]
+    kind = kinds[fn]
+    parts = R.get("dir_parts") or []
+    if not parts or parts[-1] is not None or any(p is None or "/" in p or p in ("", ".", "..") for p in parts[:-1]):
+        raise E(f"catalog directory is not <literal components> / self.name: {parts}")
+    dir_parts = parts[:-1]
+
+    def suffix(fp, what):
+        if not (len(fp) == 2 and fp[0][0] == "digest" and fp[1][0] == "lit" and "/" not in fp[1][1] and len(fp[1][1]) >= 3):
+            raise E(f"add(): {what} is not <digest><literal suffix>: {fp}")
+        return fp[1][1]
+    entry_suffix = suffix(R.get("value_file") or [], "value file")
+    node_suffix = suffix(R.get("node_file") or [], "node file")
+    if entry_suffix == node_suffix:
+        raise E("add(): value file and node file have the same name")
     L = []
     L.append("/-- `DataCatalog` name validator (`data_catalog.py`): class of `[…]+` as code-point ranges. -/")
     L.append("def catalogNameClass : List (Nat × Nat) := " + A.lean_list(ranges, lambda r: f"({r[0]}, {r[1]})"))
